@@ -58,7 +58,7 @@ CORE_R = {"dict": ("getitem", "get", "len", "iter", "call", "nav-read"), "list":
 CORE_W = {"dict": ("setitem", "delitem", "update", "child-setitem"), "list": ("append", "delitem", "insert", "child-setitem")}
 
 
-def build(clsname, topo, rname, wname, ctx, second_reader=None):
+def build(clsname, topo, rname, wname, ctx, second_reader=None, pre_session=False):
     k = env.kind_of(clsname)
     reads = DICT_READS if k == "dict" else LIST_READS
     writes = DICT_WRITES if k == "dict" else LIST_WRITES
@@ -91,6 +91,13 @@ def build(clsname, topo, rname, wname, ctx, second_reader=None):
     if missing or fresh:
         prefix = ()
     cfg = seq.Config(clsname, initial=(env.ABSENT if missing else INIT[k],), objects=objects, prefix=prefix, label=clsname)
+    if pre_session:
+        # an earlier complete backend-wide session in which every object read the file: whatever the objects share
+        # or remember from it (aliased containers, registrations, caches) is in place when the threads start
+        return {"label": "%s/%s/%s/%s/after-session" % (clsname, topo, "ctx" if ctx else "noctx", "||".join(names)), "cfg": cfg,
+                "ctx": ctx, "threads": threads, "pair": "r:%s||w:%s" % (rname, wname), "topology": topo + ":after-session",
+                "property": PROPERTY, "module": __name__, "final_views": topo != "same-object",
+                "pre_ctx": (("enter_cls", None),) + tuple(("op", o, "len", ()) for o in range(len(objects))) + (("exit_cls",),)}
     return {"label": "%s/%s/%s/%s" % (clsname, topo, "ctx" if ctx else "noctx", "||".join(names)), "cfg": cfg,
             "ctx": ctx, "threads": threads, "pair": "r:%s||w:%s" % (rname, wname) + ("||r:" + second_reader if second_reader else ""),
             "topology": topo, "property": PROPERTY, "module": __name__,
@@ -117,6 +124,12 @@ def plan(tier, seed):
                         pr = build(c, topo, r, w, ctx)
                         if pr is not None:
                             p1.append(pr)
+                if ctx is not None and topo == "two-objects":
+                    for r in (rs[:2] if tier == "quick" else rs):
+                        for w in (ws[:2] if tier == "quick" else ws):
+                            pr = build(c, topo, r, w, ctx, pre_session=True)
+                            if pr is not None:
+                                p1.append(pr)
                 if tier != "quick" and fam in ("JSON", "Buffered") and ctx == fams[0][1] or (tier != "quick" and fam == "Buffered" and ctx):
                     for r in CORE_R[k][:3]:
                         for w in CORE_W[k][:2]:
